@@ -210,7 +210,10 @@ Record wf (h : heap) : Prop := mkWf {
   wf_trs : Forall (fun k => locs_ok h (tr_drops k)) (trs h);
   wf_arrs : Forall (Forall (fun s => s < length (store h))) (arrs h);
   wf_tcs : Forall (fun t => Forall (fun c => c < length (ems h)) (tc_ems t)) (tcs h);
-  wf_tls : Forall (Forall (fun k => k < length (trs h))) (tls h)
+  wf_tls : Forall (Forall (fun k => k < length (trs h))) (tls h);
+  wf_tc_tl : Forall (fun t => tc_tl t < length (tlists h)) (tcs h);
+  wf_tr_tl : Forall (fun k => tr_tl k < length (tlists h)) (trs h);
+  wf_tvars : Forall (fun tl => tl < length (tlists h)) (tvars h)
 }.
 
 Lemma wf_emp : wf emp.
@@ -282,7 +285,7 @@ Qed.
 
 Lemma wf_alloc h vs : wf h -> wf (alloc h vs).
 Proof.
-  intros [W1 W2 W3 W4 W5 W6 W7]. constructor; simpl.
+  intros [W1 W2 W3 W4 W5 W6 W7 W8 W9 W10]. constructor; simpl.
   - rewrite app_length. apply Forall_app. split.
     + eapply Forall_lt_mono with (f := fun x => x); [|exact W1]. lia.
     + apply Forall_forall. intros x Hx. apply in_seq in Hx. lia.
@@ -292,15 +295,18 @@ Proof.
   - rewrite app_length. eapply Forall2_lt_mono; [|exact W5]. lia.
   - exact W6.
   - exact W7.
+  - exact W8.
+  - exact W9.
+  - exact W10.
 Qed.
 
 Lemma wf_set_store h s v : wf h -> wf (set_store h s v).
 Proof.
-  intros [W1 W2 W3 W4 W5 W6 W7]. constructor; simpl; auto; rewrite length_upd; auto.
+  intros [W1 W2 W3 W4 W5 W6 W7 W8 W9 W10]. constructor; simpl; auto; rewrite length_upd; auto.
 Qed.
 
 Lemma wf_with_hnd h ls : wf h -> locs_ok h ls -> wf (with_hnd h ls).
-Proof. intros [W1 W2 W3 W4 W5 W6 W7] H. constructor; simpl; auto. Qed.
+Proof. intros [W1 W2 W3 W4 W5 W6 W7 W8 W9 W10] H. constructor; simpl; auto. Qed.
 
 Lemma wf_push_hnd h l : wf h -> l < length (objs h) -> wf (push_hnd h l).
 Proof.
@@ -309,44 +315,65 @@ Qed.
 
 Lemma wf_set_em h c e : wf h -> locs_ok h (e_mem e) -> wf (set_em h c e).
 Proof.
-  intros [W1 W2 W3 W4 W5 W6 W7] H. constructor; simpl; auto.
+  intros [W1 W2 W3 W4 W5 W6 W7 W8 W9 W10] H. constructor; simpl; auto.
   - apply Forall_upd; auto.
   - rewrite length_upd; auto.
 Qed.
 
 Lemma wf_push_em h e : wf h -> locs_ok h (e_mem e) -> wf (push_em h e).
 Proof.
-  intros [W1 W2 W3 W4 W5 W6 W7] H. constructor; simpl; auto.
+  intros [W1 W2 W3 W4 W5 W6 W7 W8 W9 W10] H. constructor; simpl; auto.
   - apply Forall_app; split; auto.
   - rewrite app_length. eapply Forall_impl; [|exact W6]. intros t Ht.
     eapply Forall_impl; [|exact Ht]. simpl; intros; lia.
 Qed.
 
-Lemma wf_set_tc h t x : wf h -> Forall (fun c => c < length (ems h)) (tc_ems x) -> wf (set_tc h t x).
-Proof. intros [W1 W2 W3 W4 W5 W6 W7] H. constructor; simpl; auto. apply Forall_upd; auto. Qed.
+Lemma wf_set_tc h t x :
+  wf h -> Forall (fun c => c < length (ems h)) (tc_ems x) -> tc_tl x < length (tlists h) -> wf (set_tc h t x).
+Proof. intros [W1 W2 W3 W4 W5 W6 W7 W8 W9 W10] H Hl. constructor; simpl; auto; apply Forall_upd; auto. Qed.
 
-Lemma wf_push_tc h x : wf h -> Forall (fun c => c < length (ems h)) (tc_ems x) -> wf (push_tc h x).
-Proof. intros [W1 W2 W3 W4 W5 W6 W7] H. constructor; simpl; auto. apply Forall_app; split; auto. Qed.
+Lemma wf_push_tc h x :
+  wf h -> Forall (fun c => c < length (ems h)) (tc_ems x) -> tc_tl x < length (tlists h) -> wf (push_tc h x).
+Proof. intros [W1 W2 W3 W4 W5 W6 W7 W8 W9 W10] H Hl. constructor; simpl; auto; apply Forall_app; split; auto. Qed.
 
-Lemma wf_set_tr h k x : wf h -> locs_ok h (tr_drops x) -> wf (set_tr h k x).
+Lemma wf_alloc_tl h ts : wf h -> wf (alloc_tl h ts).
 Proof.
-  intros [W1 W2 W3 W4 W5 W6 W7] H. constructor; simpl; auto.
-  - apply Forall_upd; auto.
-  - rewrite length_upd; auto.
+  intros [W1 W2 W3 W4 W5 W6 W7 W8 W9 W10]. constructor; simpl; auto; rewrite app_length.
+  - eapply Forall_lt_mono with (f := tc_tl); [|exact W8]. lia.
+  - eapply Forall_lt_mono with (f := tr_tl); [|exact W9]. lia.
+  - eapply Forall_lt_mono with (f := fun x => x); [|exact W10]. lia.
 Qed.
 
-Lemma wf_push_tr h x : wf h -> locs_ok h (tr_drops x) -> wf (push_tr h x).
+Lemma wf_set_tl h tl ts : wf h -> wf (set_tl h tl ts).
+Proof. intros [W1 W2 W3 W4 W5 W6 W7 W8 W9 W10]. constructor; simpl; auto; rewrite length_upd; auto. Qed.
+
+Lemma wf_with_tvars h x : wf h -> Forall (fun tl => tl < length (tlists h)) x -> wf (with_tvars h x).
+Proof. intros [W1 W2 W3 W4 W5 W6 W7 W8 W9 W10] H. constructor; simpl; auto. Qed.
+
+Lemma tlists_alloc_tl h ts : length (tlists h) < length (tlists (alloc_tl h ts)).
+Proof. simpl. rewrite app_length. simpl. lia. Qed.
+
+Lemma wf_set_tr h k x : wf h -> locs_ok h (tr_drops x) -> tr_tl x < length (tlists h) -> wf (set_tr h k x).
 Proof.
-  intros [W1 W2 W3 W4 W5 W6 W7] H. constructor; simpl; auto.
+  intros [W1 W2 W3 W4 W5 W6 W7 W8 W9 W10] H Hl. constructor; simpl; auto.
+  - apply Forall_upd; auto.
+  - rewrite length_upd; auto.
+  - apply Forall_upd; auto.
+Qed.
+
+Lemma wf_push_tr h x : wf h -> locs_ok h (tr_drops x) -> tr_tl x < length (tlists h) -> wf (push_tr h x).
+Proof.
+  intros [W1 W2 W3 W4 W5 W6 W7 W8 W9 W10] H Hl. constructor; simpl; auto.
   - apply Forall_app; split; auto.
   - rewrite app_length. eapply Forall2_lt_mono; [|exact W7]. lia.
+  - apply Forall_app; split; auto.
 Qed.
 
 Lemma wf_push_arr h r : wf h -> Forall (fun s => s < length (store h)) r -> wf (push_arr h r).
-Proof. intros [W1 W2 W3 W4 W5 W6 W7] H. constructor; simpl; auto. apply Forall_app; split; auto. Qed.
+Proof. intros [W1 W2 W3 W4 W5 W6 W7 W8 W9 W10] H. constructor; simpl; auto. apply Forall_app; split; auto. Qed.
 
 Lemma wf_with_tls h x : wf h -> Forall (Forall (fun k => k < length (trs h))) x -> wf (with_tls h x).
-Proof. intros [W1 W2 W3 W4 W5 W6 W7] H. constructor; simpl; auto. Qed.
+Proof. intros [W1 W2 W3 W4 W5 W6 W7 W8 W9 W10] H. constructor; simpl; auto. Qed.
 
 Lemma locs_ok_app h a b : locs_ok h a -> locs_ok h b -> locs_ok h (a ++ b).
 Proof. intros; apply Forall_app; auto. Qed.
@@ -367,64 +394,11 @@ Proof.
     inversion H; subst. constructor; auto. eapply Forall_nth_error; eauto.
 Qed.
 
-(* ------------------------------------------------------------------------------------ *)
-(* alignment of times and members                                                        *)
-(* ------------------------------------------------------------------------------------ *)
-
-Definition tc_aligned (t : tcourse) : Prop := length (tc_times t) = length (tc_ems t).
-Definition tr_aligned (k : track) : Prop := length (tr_times k) = length (tr_drops k).
-Definition Aligned (h : heap) : Prop := Forall tc_aligned (tcs h) /\ Forall tr_aligned (trs h).
-
-Lemma Aligned_emp : Aligned emp.
-Proof. split; constructor. Qed.
-
-(* a relation saying what an operation may do to the two tables *)
-Definition tables_step (h h' : heap) : Prop :=
-  (tcs h' = tcs h \/ (exists t x, tc_aligned x /\ tcs h' = upd (tcs h) t x) \/ (exists x, tc_aligned x /\ tcs h' = tcs h ++ [x]))
-  /\ (trs h' = trs h \/ (exists k x, tr_aligned x /\ trs h' = upd (trs h) k x) \/ (exists x, tr_aligned x /\ trs h' = trs h ++ [x])).
-
-Lemma tables_step_aligned h h' : Aligned h -> tables_step h h' -> Aligned h'.
-Proof.
-  intros [A1 A2] [[E|[(t & x & Hx & E)|(x & Hx & E)]] [F|[(k & y & Hy & F)|(y & Hy & F)]]];
-    split; rewrite ?E, ?F; auto; try (apply Forall_upd; auto); try (apply Forall_app; split; auto).
-Qed.
-
-Lemma tables_same h h' : tcs h' = tcs h -> trs h' = trs h -> tables_step h h'.
-Proof. intros E F; split; left; auto. Qed.
-
-Lemma tables_step_refl h : tables_step h h.
-Proof. apply tables_same; auto. Qed.
-
-Lemma extend_locs_tables h c ls cp f :
-  tcs (fst (extend_locs h c ls cp f)) = tcs h /\ trs (fst (extend_locs h c ls cp f)) = trs h.
-Proof.
-  revert h; induction ls as [|l ls IH]; intros h; simpl; auto.
-  destruct (append_loc h c l cp f) as [h1 [|e]] eqn:E.
-  - assert (tcs h1 = tcs h /\ trs h1 = trs h) as [E1 E2].
-    { unfold append_loc in E. destruct (nth_error (ems h) c); [|inversion E; auto].
-      destruct (val_of h l); [|inversion E; auto]. unfold em_add in E.
-      destruct (rejects e v f); [inversion E; auto|]. destruct cp; inversion E; auto. }
-    destruct (IH h1) as [I1 I2]. rewrite I1, I2; auto.
-  - simpl. unfold append_loc in E. destruct (nth_error (ems h) c); [|inversion E; auto].
-    destruct (val_of h l); [|inversion E; auto]. unfold em_add in E.
-    destruct (rejects e0 v f); [inversion E; auto|]. destruct cp; inversion E.
-Qed.
-
-Lemma copy_ems_tables h es h1 : copy_ems h es = Some h1 ->
-  tcs h1 = tcs h /\ trs h1 = trs h /\ hnd h1 = hnd h /\ arrs h1 = arrs h /\ tls h1 = tls h
-  /\ length (ems h1) = length (ems h) + length es.
-Proof.
-  revert h; induction es as [|e es IH]; simpl; intros h H.
-  - inversion H; subst. repeat split; auto.
-  - destruct (vals_of h (e_mem e)) as [vs|]; [|discriminate].
-    apply IH in H. simpl in H. rewrite app_length in H. simpl in H.
-    destruct H as (H1 & H2 & H3 & H4 & H5 & H6). repeat split; auto. lia.
-Qed.
-
 (* simplify heap projections only *)
-Ltac hs := cbn [fst snd store objs hnd ems tcs trs arrs tls push_arr push_hnd push_em push_tc push_tr
+Ltac hs := cbn [fst snd store objs hnd ems tcs trs arrs tls tlists tvars push_arr push_hnd push_em push_tc push_tr
                 set_em set_tc set_tr set_store with_store with_objs with_hnd with_ems with_tcs with_trs
-                with_arrs with_tls alloc e_mem e_dtype tc_times tc_ems tr_times tr_drops] in *.
+                with_arrs with_tls with_tlists with_tvars alloc alloc_tl set_tl e_mem e_dtype tc_tl tc_ems
+                tr_tl tr_drops] in *.
 
 Ltac dm :=
   repeat match goal with
@@ -433,66 +407,17 @@ Ltac dm :=
 
 Ltac destruct_op o :=
   destruct o as [v|i|i k q| |c i cp f|c is cp f|c i|c i k q|c q|c lo hi|c1 c2|c q|c removed|c|a i k q
-                |c i j ip v|cs times|t c tm cp|t|t lo hi|t|is times|k i tm|k|k lo hi|k i|ks|l q].
+                |c i j ip v|cs times|t c tm cp|t|t lo hi|t|is times|k i tm|k|k lo hi|k i|ks|l q
+                |t|cs j|k|is j|ts|j q|j i q].
 
-Theorem exec_tables_step h o : Aligned h -> tables_step h (fst (exec h o)).
+Lemma copy_ems_tables h es h1 : copy_ems h es = Some h1 ->
+  tcs h1 = tcs h /\ trs h1 = trs h /\ hnd h1 = hnd h /\ arrs h1 = arrs h /\ tls h1 = tls h
+  /\ tlists h1 = tlists h /\ tvars h1 = tvars h
+  /\ length (ems h1) = length (ems h) + length es.
 Proof.
-  intros [A1 A2].
-  destruct_op o; simpl;
-    try (unfold exec_new, exec_view, exec_seth, exec_append,
-           exec_get, exec_setm, exec_copy, exec_slice, exec_add, exec_remove_small,
-           exec_remove_overlap, exec_link, exec_writea, exec_merge, exec_tcappend_bad,
-           exec_trappend_bad, exec_trget, exec_tlnew, exec_tlremove,
-           append_loc, em_add, new_em_from, write_loc, write_sloc;
-         dm; simpl; apply tables_same; reflexivity).
-  - (* extend *) unfold exec_extend. dm; simpl; try apply tables_step_refl.
-    match goal with |- context [extend_locs ?h ?c ?l ?cp ?f] =>
-      destruct (extend_locs_tables h c l cp f) end. apply tables_same; auto.
-  - (* tcnew *) unfold exec_tcnew. dm; simpl; try apply tables_step_refl.
-    all: match goal with H : copy_ems _ _ = Some _ |- _ => apply copy_ems_tables in H; destruct H as (E1 & E2 & _) end.
-    all: match goal with H : (_ =? _) = true |- _ => apply Nat.eqb_eq in H; rename H into Hlen end.
-    all: split; simpl; [|left; auto].
-    all: right; right; eexists; split; [|rewrite E1; reflexivity].
-    all: unfold tc_aligned; simpl; unfold new_cids; rewrite seq_length; exact Hlen.
-  - (* tcappend *) unfold exec_tcappend. dm; simpl; try apply tables_step_refl.
-    all: split; simpl; [|left; auto].
-    all: right; left; eexists _, _; split; [|reflexivity].
-    all: unfold tc_aligned; simpl; rewrite !app_length; simpl.
-    all: match goal with H : nth_error (tcs _) _ = Some _ |- _ =>
-        eapply Forall_nth_error in H; [|exact A1]; unfold tc_aligned in H; lia end.
-  - (* tcslice *) unfold exec_tcslice. dm; simpl; try apply tables_step_refl.
-    all: match goal with H : copy_ems _ _ = Some _ |- _ => apply copy_ems_tables in H; destruct H as (E1 & E2 & _) end.
-    all: match goal with H : (_ =? _) = true |- _ => apply Nat.eqb_eq in H; rename H into Hlen end.
-    all: split; simpl; [|left; auto].
-    all: right; right; eexists; split; [|rewrite E1; reflexivity].
-    all: unfold tc_aligned; simpl; unfold new_cids; rewrite seq_length; exact Hlen.
-  - (* tcclear *) unfold exec_tcclear. dm; simpl; try apply tables_step_refl. split; simpl.
-    + right; left. eexists _, _; split; [|reflexivity]. reflexivity.
-    + left; auto.
-  - (* trnew *) unfold exec_trnew. dm; simpl; try apply tables_step_refl.
-    all: match goal with H : (length _ =? _) = true |- _ => apply Nat.eqb_eq in H; rename H into Hlen end.
-    all: split; simpl; [left; auto|].
-    all: right; right; eexists; split; [|reflexivity]; unfold tr_aligned; simpl.
-    all: unfold new_locs; rewrite seq_length; exact Hlen.
-  - (* trappend *) unfold exec_trappend. dm; simpl; try apply tables_step_refl.
-    all: split; simpl; [left; reflexivity|].
-    all: right; left; eexists _, _; split; [|reflexivity]; unfold tr_aligned; simpl;
-      rewrite !app_length; simpl;
-      match goal with H : nth_error (trs _) _ = Some _ |- _ =>
-        eapply Forall_nth_error in H; [|exact A2]; unfold tr_aligned in H; lia end.
-  - (* trslice *) unfold exec_trslice. dm; simpl; try apply tables_step_refl.
-    all: match goal with H : (length _ =? _) = true |- _ => apply Nat.eqb_eq in H; rename H into Hlen end.
-    all: split; simpl; [left; auto|].
-    all: right; right; eexists; split; [|reflexivity]; unfold tr_aligned; simpl.
-    all: unfold new_locs; rewrite seq_length; exact Hlen.
-Qed.
-
-(* times and members stay aligned under EVERY operation sequence *)
-Theorem aligned_step h o : Aligned h -> Aligned (fst (exec h o)).
-Proof. intros A. eapply tables_step_aligned; eauto. apply exec_tables_step; auto. Qed.
-
-Theorem aligned_run os : forall h, Aligned h -> Aligned (run h os).
-Proof.
-  induction os as [|o os IH]; intros h A; simpl; auto.
-  apply IH. apply aligned_step; auto.
+  revert h; induction es as [|e es IH]; simpl; intros h H.
+  - inversion H; subst. repeat split; auto.
+  - destruct (vals_of h (e_mem e)) as [vs|]; [|discriminate].
+    apply IH in H. simpl in H. rewrite app_length in H. simpl in H.
+    destruct H as (H1 & H2 & H3 & H4 & H5 & H6 & H7 & H8). repeat split; auto. lia.
 Qed.
